@@ -134,10 +134,72 @@ def static_obligations(rep):
                            replay=dict(signature="static-fields:" + cname) if untracked else None))
 
 
+MUTATING_CALLS = {"append", "extend", "insert", "pop", "remove", "clear", "sort", "reverse", "update", "add", "discard",
+                  "setdefault", "popitem", "fill"}
+
+
+def function_signal_write_set(rep):
+    """FunctionSignal (pyrex/signals.py): outside __init__ and property setters, methods write instance state only through
+    the static attributes named in the super().__init__(static_attributes=[...]) call or the _lazy_* cache - anything else
+    is state that survives _clear_cache (a memo the cache mechanism does not know about).  Exhaustive over the class AST:
+    plain, augmented and subscript stores, del, and mutating method calls rooted at self.<attr>."""
+    rel = "pyrex/signals.py"
+    tree = ast.parse(open(os.path.join(REPO, rel)).read())
+    cls = [n for n in tree.body if isinstance(n, ast.ClassDef) and n.name == "FunctionSignal"]
+    if not cls:
+        rep.engine_error("stale contract: class FunctionSignal not found in " + rel)
+        return
+    cls = cls[0]
+    static = None
+    for n in ast.walk(cls):
+        if isinstance(n, ast.Call):
+            for kw in n.keywords:
+                if kw.arg == "static_attributes" and isinstance(kw.value, (ast.List, ast.Tuple)):
+                    static = [e.value for e in kw.value.elts if isinstance(e, ast.Constant)]
+    if static is None:
+        rep.engine_error("stale contract: FunctionSignal does not declare static_attributes")
+        return
+
+    def rooted(t):
+        while isinstance(t, (ast.Subscript, ast.Attribute)):
+            if isinstance(t, ast.Attribute) and isinstance(t.value, ast.Name) and t.value.id == "self":
+                return t.attr
+            t = t.value
+        return None
+    bad = []
+    for m in cls.body:
+        if not isinstance(m, ast.FunctionDef) or m.name == "__init__":
+            continue
+        if any(isinstance(d, ast.Attribute) and d.attr == "setter" for d in m.decorator_list):
+            continue
+        for n in ast.walk(m):
+            tg = []
+            if isinstance(n, ast.Assign):
+                tg = n.targets
+            elif isinstance(n, (ast.AugAssign, ast.AnnAssign)):
+                tg = [n.target]
+            elif isinstance(n, ast.Delete):
+                tg = n.targets
+            names = []
+            for t in tg:
+                for e in (t.elts if isinstance(t, (ast.Tuple, ast.List)) else [t]):
+                    names.append(rooted(e))
+            if isinstance(n, ast.Call) and isinstance(n.func, ast.Attribute) and n.func.attr in MUTATING_CALLS:
+                names.append(rooted(n.func.value))
+            for a in names:
+                if a and a not in static and not a.startswith("_lazy_"):
+                    bad.append("%s writes self.%s (line %d)" % (m.name, a, n.lineno))
+    rep.add(Obligation("static:FunctionSignal:methods-write-only-tracked-state", "function-signal-invariant",
+                       "FunctionSignal methods write instance state only through its static attributes %s or the lazy cache" % (static,),
+                       FAILED if bad else DISCHARGED, "ast", 0.0, detail="; ".join(sorted(set(bad)))[:800],
+                       replay=dict(signature="static-writes:FunctionSignal") if bad else None))
+
+
 def setup(rep):
     runner.hash_functions(rep, FUNCS)
     rep.min_obligations = 40
     static_obligations(rep)
+    function_signal_write_set(rep)
     rep.clause("function-signal-invariant", "B", "INV_lazy (cached value present => defining attributes structurally unchanged) is "
                "established by the constructor and preserved by shift, *=, /=, filter_frequencies, set_buffers, resample, attribute "
                "assignment; copy/+/*// results carry no inherited cache - symbolic state with 1-2 components")
